@@ -634,6 +634,50 @@ def open_type_decodes(ctx, n, tag=''):
             ctx.prop_fail('identical decode calls (decodeOpenTypes) on one type object give different outcomes', m)
 
 
+def caller_open_type_maps(ctx, n, tag=''):
+    """(i) decode(.., openTypes=m) with ONE caller-owned mapping m reused over calls and over two record types whose own
+    maps give the same governing value different types: m must come back unchanged (same keys, same objects), every call
+    must give what the same call gives with a private copy of m, in definite and indefinite form, BER/CER/DER"""
+    from pyasn1.type import namedtype, opentype
+    rng = ctx.rng
+    def record(own, base_cls):
+        return base_cls(componentType=namedtype.NamedTypes(
+            namedtype.NamedType('id', univ.Integer()),
+            namedtype.NamedType('blob', univ.Any(), openType=opentype.OpenType('id', own))))
+    for _ in range(n):
+        base_cls = univ.Sequence if rng.random() < 0.5 else univ.Set
+        recA = record({1: univ.Integer(), 2: univ.OctetString()}, base_cls)
+        recB = record({1: univ.OctetString(), 3: univ.Null()}, base_cls)
+        shared = {7: univ.Boolean()} if rng.random() < 0.7 else {7: univ.Boolean(), 2: univ.Integer()}
+        keys0, vals0 = list(shared.keys()), [id(v) for v in shared.values()]
+        calls = []
+        for _ in range(rng.randint(3, 6)):
+            rec, own = rng.choice([(recA, 'A'), (recB, 'B')])
+            gov = rng.choice([1, 2, 3, 7])
+            inner = {1: univ.Integer(5) if own == 'A' else univ.OctetString(b'ab'), 2: univ.OctetString(b'xy') if 2 not in shared else univ.Integer(9),
+                     3: univ.Null(''), 7: univ.Boolean(True)}[gov]
+            v = rec.clone(); v['id'] = gov; v['blob'] = univ.Any(I.ENC['DER'].encode(inner))
+            cdc = rng.choice(['BER', 'BER', 'DER', 'CER'])
+            e = I.run_encode(cdc, v, **({'defMode': rng.random() < 0.5} if cdc == 'BER' else {}))
+            if e[0] != 'ok':
+                continue
+            calls.append((own, rec, gov, cdc, e[1]))
+        m = {'part': 'i' + tag, 'calls': [(o, g, c, b.hex()) for o, _, g, c, b in calls], 'shared_keys': keys0}
+        for own, rec, gov, cdc, data in calls:
+            alone = I.run_decode(cdc, data, asn1Spec=rec, openTypes=dict(shared))
+            got = I.run_decode(cdc, data, asn1Spec=rec, openTypes=shared)
+            ctx.case(('caller-map' + tag, own, gov, cdc, data), True)
+            ctx.stats['decodes with a caller-owned openTypes mapping'] += 1
+            a = ('ok', deep_snap(alone[1]), alone[2]) if alone[0] == 'ok' else alone[:2]
+            b = ('ok', deep_snap(got[1]), got[2]) if got[0] == 'ok' else got[:2]
+            if list(shared.keys()) != keys0 or [id(v) for v in shared.values()] != vals0:
+                ctx.prop_fail('decoding changed the openTypes mapping the caller passed in (keys %r -> %r)' % (keys0, list(shared.keys())), dict(m, at=[own, gov, cdc, data.hex()]))
+                break
+            if a != b:
+                ctx.prop_fail('a decode with a reused openTypes mapping differs from the same call with a private copy of it', dict(m, at=[own, gov, cdc, data.hex()]))
+                break
+
+
 def run(ctx):
     ctx.rule = ('random (type, value) of the universe (depth<=3): (a) deep snapshot / second encode / == answers around ber (definite, '
                 'indefinite chunked), cer, der and native encoding; (b) snapshot of the guiding type around decoding valid, truncated, '
@@ -643,7 +687,7 @@ def run(ctx):
                 'sequential (the thread schedules are whatever the interpreter produced: sampled, not enumerated); (f) samples of (a)-(d),(g) with debug logging on; (g) SEQUENCE/SET types with DEFAULT SEQUENCE OF / SET OF '
                 'components (INTEGER, OCTET STRING, BOOLEAN, ANY, string, OID members; also SET OF/SEQUENCE OF ANY under an open type with '
                 'decodeOpenTypes) that the substrate leaves out: type object snapshot, repeated decodes, in-place edits of the instantiated '
-                'default in one result against the type, the other result, a further decode and the DER round trip; (h) plain Python values encoded (every codec) and natively decoded against shared guiding objects - a schema object and value objects of the type holding another value / each other CHOICE alternative: guide snapshot, second call, same call with a fresh guide')
+                'default in one result against the type, the other result, a further decode and the DER round trip; (h) plain Python values encoded (every codec) and natively decoded against shared guiding objects - a schema object and value objects of the type holding another value / each other CHOICE alternative: guide snapshot, second call, same call with a fresh guide; (i) decodes with one caller-owned openTypes mapping reused over calls and over record types whose own maps disagree on a governing value: mapping unchanged, same outcome as with a private copy')
     quick = ctx.tier != 'thorough'
     cases = codec.gen_cases(ctx, ctx.n(60, 500), depth=3)
     cases = [c for c in cases if c.want[0] != 'bad']
@@ -660,6 +704,7 @@ def run(ctx):
     part_g(ctx, dcases)
     part_h(ctx, cases + [c for c in codec.presence_grid_cases(ctx, every=9 if quick else 2) if c.want[0] != 'bad'])
     open_type_decodes(ctx, ctx.n(30, 300))
+    caller_open_type_maps(ctx, ctx.n(40, 400))
     # (f) the same with the debug logger installed, then removed again
     sample = cases[:20] if quick else cases[:100]
     debug.setLogger(debug.Debug('all', printer=lambda *a: None))
